@@ -1503,8 +1503,8 @@ class Staircase(Pbox):
         """Frechet convolution of two pboxes when any of them straddles zero"""
 
         if self.straddles_zero() and other.straddles_zero():
-            x0 = self.lo
-            y0 = other.lo
+            x0 = float(self.lo)
+            y0 = float(other.lo)
             xx0 = self - x0
             yy0 = other - y0
             a = frechet_pbox_mul(xx0, yy0)
